@@ -50,6 +50,18 @@ def _A():
     return absint
 
 
+BUILTIN_EXT = {
+    # C-implemented callables (types.BuiltinFunctionType) among the targets fx graphs carry
+    "torch.nn.functional.linear", "torch.nn.functional.conv1d", "torch.nn.functional.gelu",
+    "torch.nn.functional.scaled_dot_product_attention", "torch.matmul", "torch.add", "torch.tanh",
+    "torch.relu", "torch.cat", "torch.neg", "torch.mul", "torch.reshape", "torch.sigmoid",
+}
+
+
+def is_builtin_ext(name: str) -> bool:
+    return name.startswith(("operator.", "_operator.", "builtins.", "math.", "torch._C.")) or name in BUILTIN_EXT
+
+
 def canon_dtype(v: Any) -> Any:
     """Abstract dtype of a value used as a dtype argument."""
     if isinstance(v, ExtV) and v.name in DTYPES:
@@ -270,10 +282,6 @@ def call_ext(it: Any, f: ExtV, args: List[Any], kwargs: Dict[str, Any], node: An
                 from .builtins_model import BUILTINS
 
                 return BUILTINS["prod"].fn(it, args, kwargs, node)
-            if short == "isclose":
-                term = T("call", (name, tuple((str(i), A._term(a)) for i, a in enumerate(args)) + tuple(sorted((k, A._term(v)) for k, v in kwargs.items()))))
-                it.log("call", node, callee=name, args=args, kwargs=kwargs, bound=None, result=term)
-                return term
         except A.Unsupported:
             return Unknown(f"{name} of non-scalar")
     if name in ("typing.cast",):
@@ -299,6 +307,38 @@ def call_ext(it: Any, f: ExtV, args: List[Any], kwargs: Dict[str, Any], node: An
         return [tuple(x[i] if i < len(x) else fill for x in seqs) for i in range(n)]
     if name.startswith("typing.") or name.startswith("collections.abc."):
         return ExtV(name)
+    if name == "copy.deepcopy" and args and isinstance(args[0], (Obj, dict, list)):
+        from .fxmodel import deepcopy_model
+
+        res = deepcopy_model(it, args[0])
+        it.log("call", node, callee=name, args=args, kwargs=kwargs, bound={"x": args[0]}, result=A._term(res))
+        return res
+    if name in ("torch.fx.node.map_arg", "torch.fx.node.map_aggregate", "torch.fx.map_arg", "torch.fx.map_aggregate"):
+        from .fxmodel import deep_map, is_node
+
+        fnv = args[1]
+        if name.endswith("map_arg"):
+            return deep_map(args[0], lambda n: it.call_function(fnv, [n], {}, node))
+
+        def agg(a: Any) -> Any:
+            if isinstance(a, tuple):
+                return tuple(agg(x) for x in a)
+            if isinstance(a, list):
+                return [agg(x) for x in a]
+            if isinstance(a, dict):
+                return {k: agg(v) for k, v in a.items()}
+            return it.call_function(fnv, [a], {}, node)
+
+        return agg(args[0])
+    if name == "math.isclose":
+        from . import terms as TMX
+
+        it.log("call", node, callee=name, args=args, kwargs=kwargs, bound=None, result=None)
+        r = TMX.expr_equal(args[0], args[1]) if all(isinstance(a, (int, sp.Basic)) for a in args[:2]) else None
+        return bool(r) if r is not None else False
+    if name == "inspect.signature" and args and isinstance(args[0], ExtV):
+        sig = torchsig.SIGS.get(args[0].name, [])
+        return Obj("inspect.Signature", attrs={"parameters": {n: Obj("inspect.Parameter", attrs={"name": n}, open_attrs=False) for n, _ in sig}}, open_attrs=False)
     if name == "copy.deepcopy" or name == "copy.copy":
         src = args[0]
         term = T("call", (name, (("x", A._term(src)),)))
